@@ -2,9 +2,10 @@
 import SevenZ.Driver.Prim
 import SevenZ.Driver.Header
 import SevenZ.Driver.Path
+import SevenZ.Driver.Decode
 open SevenZ.Driver
 
-def handlers : List (String → List String → Option String) := [primHandler, headerHandler, pathHandler]
+def handlers : List (String → List String → Option String) := [primHandler, headerHandler, pathHandler, decHandler]
 
 def step (line : String) : String :=
   match (line.trimAscii.toString.splitOn " ").filter (· ≠ "") with
